@@ -1,13 +1,17 @@
 package c08
 
 import (
+	"bufio"
+	"bytes"
 	"encoding/json"
 	"flag"
 	"fmt"
+	"io"
 	"os"
 	"reflect"
 	"runtime/pprof"
 	"sort"
+	"time"
 
 	"verifharness/internal/cli"
 )
@@ -199,37 +203,105 @@ func runBehaviour(b behaviour) (res replayResult) {
 	return
 }
 
+// c08Replay: supervisor (default) or worker (-worker: behaviours on stdin, one result line each on stdout).
 func c08Replay(args []string) error {
 	fs := flag.NewFlagSet("c08-replay", flag.ContinueOnError)
 	in := fs.String("in", "", "behaviours (ndjson)")
 	out := fs.String("out", "", "results (ndjson)")
 	final := fs.Bool("final", false, "include the final state in every result")
-	prof := fs.String("cpuprofile", "", "write a CPU profile")
+	isWorker := fs.Bool("worker", false, "worker process: behaviours on stdin, results on stdout")
+	prof := fs.String("cpuprofile", "", "write a CPU profile (worker)")
 	if err := fs.Parse(args); err != nil {
 		return err
 	}
-	if *prof != "" {
-		f, err := os.Create(*prof)
-		if err != nil {
-			return err
+	if *isWorker {
+		if *prof != "" {
+			f, err := os.Create(*prof)
+			if err != nil {
+				return err
+			}
+			pprof.StartCPUProfile(f)
+			defer pprof.StopCPUProfile()
 		}
-		pprof.StartCPUProfile(f)
-		defer pprof.StopCPUProfile()
+		return replayWorker(*final)
 	}
-	wr, err := cli.NewNDJSONWriter(*out)
+	wr, err := os.Create(*out)
 	if err != nil {
 		return err
 	}
 	defer wr.Close()
+	lw := lineWriter{wr}
+	wargs := []string{"c08-replay", "-worker"}
+	if *final {
+		wargs = append(wargs, "-final")
+	}
+	var wk *worker
+	defer func() {
+		if wk != nil {
+			wk.stop()
+		}
+	}()
+	budget := confirmBudget{}
 	return cli.ReadNDJSON(*in, func(line []byte) error {
-		var b behaviour
-		if err := json.Unmarshal(line, &b); err != nil {
+		if wk == nil {
+			if wk, err = startWorker(wargs...); err != nil {
+				return err
+			}
+		}
+		wk.send(line)
+		res, crash := wk.next(60 * time.Second)
+		if crash == nil {
+			return lw.write(res)
+		}
+		wk = nil // dead: the rest continues in a fresh worker
+		if !crash.Hang && budget.want(crash) {
+			w2, err := startWorker(wargs...)
+			if err != nil {
+				return err
+			}
+			w2.send(line)
+			if _, c2 := w2.next(60 * time.Second); c2 != nil {
+				crash.Confirmed = c2.Frame == crash.Frame && c2.Panic != ""
+			} else {
+				w2.stop()
+			}
+		}
+		var b struct {
+			ID int `json:"id"`
+		}
+		json.Unmarshal(line, &b)
+		r, _ := json.Marshal(map[string]interface{}{"id": b.ID, "crash": crash})
+		return lw.write(r)
+	})
+}
+
+func replayWorker(final bool) error {
+	rd := bufio.NewReaderSize(os.Stdin, 1<<20)
+	out := lineWriter{os.Stdout}
+	for {
+		line, err := rd.ReadBytes('\n')
+		if len(bytes.TrimSpace(line)) > 0 {
+			var b behaviour
+			if e := json.Unmarshal(line, &b); e != nil {
+				return e
+			}
+			r := runBehaviour(b)
+			if !final {
+				r.Final = nil
+			}
+			j, e := json.Marshal(r)
+			if e != nil {
+				return e
+			}
+			if e := out.write(j); e != nil {
+				return e
+			}
+		}
+		if err == io.EOF {
+			return nil
+		}
+		if err != nil {
 			return err
 		}
-		r := runBehaviour(b)
-		if !*final {
-			r.Final = nil
-		}
-		return wr.Write(r)
-	})
+	}
 }
